@@ -90,6 +90,11 @@ PROP = {
         _h("c06_hist_ord_vec", "c06_hist.cpp", FAST + ["-DVF_PART=1"]),
         _h("c06_hist_uno", "c06_hist.cpp", FAST + ["-DVF_PART=2", "-DVF_OPEN=0"]),
         _h("c06_hist_uno_open", "c06_hist.cpp", FAST + ["-DVF_PART=2", "-DVF_OPEN=1"]),
+        # interface completeness (property level only, no model suite): every overload / observer / constructor form of the shared interface
+        _h("c06_api_ord", "c06_api.cpp", FAST + ["-DVF_PART=1"], sanitize="asan"),
+        _h("c06_api_uno", "c06_api.cpp", FAST + ["-DVF_PART=2", "-DVF_OPEN=0"], sanitize="asan"),
+        _h("c06_api_uno_open", "c06_api.cpp", FAST + ["-DVF_PART=2", "-DVF_OPEN=1"], sanitize="asan"),
+        _h("c06_api_vec", "c06_api.cpp", FAST + ["-DVF_PART=3"], sanitize="asan"),
     ],
     "rule": ("Differential runs: two containers + one node handle per side, 350-450 calls per run (thorough 700-900), drawn from insert / emplace / "
              "hinted insert and emplace (hints at lower/upper bound, their neighbours, begin, end, random) / try_emplace / insert_or_assign / "
